@@ -572,10 +572,19 @@ impl<'a> VisitMut for Rw<'a> {
                     continue;
                 }
             }
-            // R15: `for PAT in E.iter_mut().rev() BODY` => descending index loop over `E` (a slice or array place):
+            // R17: `for _ in RANGE` => `for vx_iK in RANGE` (names the unused binder so that contracts can count iterations)
+            if let Stmt::Expr(Expr::ForLoop(f), _) = &mut s {
+                if matches!(&*f.pat, syn::Pat::Wild(_)) {
+                    let k = self.loops;
+                    let id = syn::Ident::new(&format!("vx_i{k}"), Span::call_site());
+                    *f.pat = syn::Pat::Ident(syn::PatIdent { attrs: vec![], by_ref: None, mutability: None, ident: id.clone(), subpat: None });
+                    self.log.add("R17", "for-wild", format!("for _ in .. => for {id} in .."));
+                }
+            }
+            // R15: `for PAT in E.iter_mut().rev() BODY` (or `E.iter().rev()`, with `&E[..]`) => descending index loop over `E` (a slice, array or Vec place):
             //      `let mut vx_itK: usize = E.len(); while vx_itK > 0 { vx_itK -= 1; let PAT = &mut E[vx_itK]; BODY }`
             if let Stmt::Expr(Expr::ForLoop(f), _) = &s {
-                if let Some(place) = iter_mut_rev_place(&f.expr) {
+                if let Some((place, is_mut)) = iter_mut_rev_place(&f.expr) {
                     if f.label.is_none() {
                         let k = self.loops;
                         let it = syn::Ident::new(&format!("vx_it{k}"), Span::call_site());
@@ -584,7 +593,11 @@ impl<'a> VisitMut for Rw<'a> {
                         self.log.add("R15", "iter-mut-rev", format!("for {} in {} => descending index loop over {}", squash(&pat.to_token_stream().to_string()), squash(&f.expr.to_token_stream().to_string()), squash(&place.to_token_stream().to_string())));
                         let l: Stmt = syn::parse2(quote!( let mut #it: usize = #place.len(); )).unwrap();
                         out.push(l);
-                        let w: Expr = syn::parse2(quote!( while #it > 0 { #it -= 1; let #pat = &mut #place[#it]; #(#body_stmts)* } )).unwrap();
+                        let w: Expr = if is_mut {
+                            syn::parse2(quote!( while #it > 0 { #it -= 1; let #pat = &mut #place[#it]; #(#body_stmts)* } )).unwrap()
+                        } else {
+                            syn::parse2(quote!( while #it > 0 { #it -= 1; let #pat = &#place[#it]; #(#body_stmts)* } )).unwrap()
+                        };
                         s = Stmt::Expr(w, None);
                     }
                 }
@@ -893,13 +906,13 @@ impl<'a> VisitMut for Rw<'a> {
     }
 }
 
-/// `E.iter_mut().rev()` => Some(E)
-fn iter_mut_rev_place(e: &Expr) -> Option<Expr> {
+/// `E.iter_mut().rev()` => Some((E, true)),  `E.iter().rev()` => Some((E, false))
+fn iter_mut_rev_place(e: &Expr) -> Option<(Expr, bool)> {
     if let Expr::MethodCall(m) = e {
         if m.method == "rev" && m.args.is_empty() {
             if let Expr::MethodCall(m2) = &*m.receiver {
-                if m2.method == "iter_mut" && m2.args.is_empty() {
-                    return Some((*m2.receiver).clone());
+                if (m2.method == "iter_mut" || m2.method == "iter") && m2.args.is_empty() {
+                    return Some(((*m2.receiver).clone(), m2.method == "iter_mut"));
                 }
             }
         }
@@ -932,6 +945,7 @@ struct UnitSpec {
     no_ufcs: bool,
     ufcs_calls: bool,
     index_ovl: Vec<String>,
+    drop_generics: Vec<String>,
     spec: String,
     anchors: BTreeMap<String, String>,
     open_attrs: String, // extra attributes to print before the fn
@@ -1065,6 +1079,19 @@ fn gen_unit(ctx: &mut Ctx, u: &UnitSpec, report: &mut Vec<serde_json::Value>) ->
         v.visit_signature_mut(&mut fp.sig);
         v.visit_block_mut(&mut fp.block);
         log.add("R12", "self-type", format!("`Self` => `{t}` (default method verified for an arbitrary implementor)"));
+    }
+    // R6: type parameters instantiated by a concrete view type of the same name are removed from the signature
+    if !u.drop_generics.is_empty() {
+        let kept: syn::punctuated::Punctuated<syn::GenericParam, syn::token::Comma> = fp.sig.generics.params.iter().filter(|p| match p {
+            syn::GenericParam::Type(t) => !u.drop_generics.iter().any(|d| t.ident == d),
+            _ => true,
+        }).cloned().collect();
+        log.add("R6", "drop-generics", format!("type parameter(s) {} instantiated by the view type of the same name", u.drop_generics.join(", ")));
+        fp.sig.generics.params = kept;
+        if fp.sig.generics.params.is_empty() {
+            fp.sig.generics.lt_token = None;
+            fp.sig.generics.gt_token = None;
+        }
     }
     if let Some(g) = &u.generics {
         let gen: syn::Generics = syn::parse_str(g).unwrap_or_else(|e| die(&format!("generics option `{g}`: {e}")));
@@ -1542,6 +1569,7 @@ fn main() {
                     u.self_ty = kv.get("self_ty").cloned();
                     u.drop_const = kv.get("const").map(|m| m == "drop").unwrap_or(false);
                     u.generics = kv.get("generics").cloned();
+                    u.drop_generics = kv.get("drop_generics").map(|m| m.split(',').map(|x| x.trim().to_string()).filter(|x| !x.is_empty()).collect()).unwrap_or_default();
                     cur = Some(u);
                     cur_anchor = None;
                 },
